@@ -249,15 +249,21 @@ theorem frag_second_pass_tokens (f2 : File) (hwf : f2.wf = true) :
   rw [h1, ← toksL_proj_false, hl, toksL_proj_false, items_toks_lexM]
 
 /-- FIXED POINT FOR COMMENT-FREE FILES. For every well-formed file of the fragment without comments
-    (nested sets / `rec` sets / lists / bindings / parenthesised expressions / function calls / leaves
-    with arbitrary whitespace, any depth), the
+    (nested sets / `rec` sets / lists / bindings / parenthesised expressions / function calls / select
+    `e.a.b` / `or default` / lambda `x: body` / unary and binary operators / leaves with arbitrary
+    whitespace, any depth; not `with` / `assert`: `Cst.cf`), the
     text the round trip writes is the flattening of the well-formed comment-free tree `File.norm f`
     — the round trip IS that tree normaliser (`file_rt`: one line break per item of a container
     that spans lines, blank lines kept as one, two-space indentation, values on their own line
     keep the indentation read from their gap, one-line containers joined by single spaces; a
     parenthesised value stays on the line of `(` or goes on its own line at the indentation read from
     the gap, `)` stays or goes on its own line at the current indentation; function and argument are
-    separated by one space or a line break with the argument at the indentation read from the gap) — and
+    separated by one space or a line break with the argument at the indentation read from the gap; the
+    `.` of a select, the `or`, the `:` of a lambda and the operand of a unary operator stay on the line or
+    go on their own line at the indentation read from the gap; the body of a lambda and the two sides of a
+    binary operator keep the NUMBER of line breaks of the source — cf. `C18.cex_blank_lines_after_colon`
+    / `cex_blank_lines_around_operator` — at the current indentation, the right operand at the
+    indentation `_resolve_right_operand` gives it: `binRightIndentC`) — and
     the round trip of that tree writes the same text again (`File.norm` is idempotent). `File.norm f`
     is the tree tree-sitter returns for the output: compared with the real tree, node by node, on
     every comment-free sample of every run (`fragment_correspondence`), which is the parser-contract
@@ -298,6 +304,21 @@ def callSample : File :=
 example : callSample.flatten = "f  (\n\n     g x\n  )\n\n   [ (1) ]".toList := by decide
 example : callSample.wf = true ∧ callSample.cf = true ∧ callSample.noLeadingWs = true := by decide
 example : callSample.norm.flatten = "f (\n\n     g x\n)\n\n   [ (1) ]".toList := by decide
+
+/-- `{⏎  a = x:⏎⏎⏎     ! x. b.c⏎        or  d⏎⏎      +⏎⇥-y .e;⏎}⏎` -/
+def opsCfSample : File :=
+  { items := .elem [] (.set false [] (.bind "\n  ".toList "a".toList [] " ".toList [] " ".toList
+      (.lam "x".toList [] [] [] "\n\n\n     ".toList
+        (.bin (.un "!".toList [] " ".toList (.selOr (.leaf .ident "x".toList) [] [] " ".toList ["b".toList, "c".toList] []
+            "\n        ".toList "  ".toList (.leaf .ident "d".toList)))
+          [] "\n\n      ".toList "+".toList [] "\n\t".toList
+          (.un "-".toList [] [] (.sel (.leaf .ident "y".toList) [] " ".toList [] ["e".toList]))))
+      [] [] .nil) "\n".toList) .nil,
+    endGap := "\n".toList }
+
+example : opsCfSample.flatten = "{\n  a = x:\n\n\n     ! x. b.c\n        or  d\n\n      +\n\t-y .e;\n}\n".toList := by decide
+example : opsCfSample.wf = true ∧ opsCfSample.cf = true ∧ opsCfSample.noLeadingWs = true := by decide
+example : opsCfSample.norm.flatten = "{\n  a = x:\n\n\n  !x.b.c\n        or d\n\n  +\n    -y.e;\n}\n".toList := by decide
 
 /-- fixed points of the model (line-level comments, canonical layout): decidable per file -/
 def isFixedPoint (f : File) : Bool := decide (f.roundtrip = .ok f.flatten)
